@@ -89,7 +89,7 @@ theorem serve_verdict_sound (env : Env P M) (hg : ∀ n, GameOK (env.game n)) (h
             · exact hord y hy
             · simp only [List.mem_singleton] at hy; subst hy
               exact hreq _ (List.of_mem_zip hx).1
-          have hv := verdict_sound (hg (env.size p)) (he (env.size p)) (hinj (env.size p))
+          have hv := verdict_sound (hg (env.size p)) (he (env.size p)) (hinj (env.size p)).ok
             (playerCfg_precise env.tableEntries depth) (h ++ [(p, o)]) hord' _ hrun (p, v) (by simp)
           exact ⟨p, hp, hv.1, hv.2⟩
   | isInTak position o =>
@@ -108,7 +108,7 @@ theorem serve_verdict_sound (env : Env P M) (hg : ∀ n, GameOK (env.game n)) (h
           · exact hord y hy
           · simp only [List.mem_singleton] at hy; subst hy
             exact hreq _ (List.of_mem_zip hx).1
-        have hv := verdict_sound (hg (env.size q)) (he (env.size q)) (hinj (env.size q))
+        have hv := verdict_sound (hg (env.size q)) (he (env.size q)) (hinj (env.size q)).ok
           (playerCfg_precise env.tableEntries 1) (h ++ [(q, o)]) hord' _ hrun (q, v) (by simp)
         refine ⟨p, q, hp, hq, ?_⟩
         intro ht
